@@ -158,7 +158,9 @@ def step (w : World) (line : String) : World × List String :=
   | "C" =>
     match Bytes.parseNat a1 with
     | some sid =>
-      let (n, r, evs) := w.node.exec sid (unesc a2)
+      -- a command on an unknown session id opens the session first (as the harness does)
+      let n0 := if (AL.get? w.node.sessions sid).isNone then w.node.setSession sid {} else w.node
+      let (n, r, evs) := n0.exec sid (unesc a2)
       let w := recordNotices { w with node := n } evs
       (w, respStr r :: evLines evs ++ dumpNode n)
     | none => (w, ["E bad-op"])
@@ -184,6 +186,7 @@ def step (w : World) (line : String) : World × List String :=
   | "CLOSE" =>
     match Bytes.parseNat a1 with
     | some sid =>
+      if (AL.get? w.node.sessions sid).isNone then (w, ["E bad-op"]) else
       let (n, evs) := w.node.close sid
       ({ w with node := n }, evLines (evs.filter (evNotForSid sid)) ++ dumpNode n)
     | none => (w, ["E bad-op"])
